@@ -658,6 +658,9 @@ MUTANTS = [
     M("Q2-3-pocket-from-i", ["C05", "C12"], (RP, "SUITS[i + 1..].iter().map(move |&right| {", "SUITS[i..].iter().map(move |&right| {"), base="Q2-3"),
     M("benign-Q5-4-listed-flatten-map", ["C05", "C09"], base="Q5-4", benign=True),
     M("Q5-4-tail-weight-one", ["C05"], (TK, "            .map(|cp| (cp, probability))\n            .collect::<Vec<(CardPair, f32)>>()", "            .map(|cp| (cp, 1.0))\n            .collect::<Vec<(CardPair, f32)>>()"), base="Q5-4"),
+    M("benign-I7-3-card-from-byte-pattern", ["C13", "C09", "C08"], base="I7-3", benign=True),
+    M("I7-3-accepts-longer-text", ["C13"], (CD, "            [rank, suit] => {", "            [rank, suit, ..] => {"), base="I7-3"),
+    M("I7-3-suit-from-first-byte", ["C13"], (CD, "let suit = Suit::try_from(char::from(suit)).ok()?;", "let suit = Suit::try_from(char::from(rank)).ok()?;"), base="I7-3"),
     M("benign-F3-3-computed-flush-weight", ["C01", "C07", "C08"], base="F3-3", benign=True),
     M("F3-3-unreversed", ["C01", "C07"], (MH, "1 << (12 - u8::from(card.rank()))", "1 << u8::from(card.rank())"), base="F3-3"),
     M("F3-3-off-by-one", ["C01", "C07"], (MH, "1 << (12 - u8::from(card.rank()))", "1 << (13 - u8::from(card.rank()))"), base="F3-3"),
